@@ -15,6 +15,7 @@ SQL: a wrapping database/sql driver fails the insert, the update or the commit o
 import json
 import os
 import random
+import re
 from concurrent.futures import ThreadPoolExecutor
 
 from lib import common
@@ -137,13 +138,20 @@ def run(ctx):
                 row['obs']['reopen'], row['obs']['ns'], row['obs']['nt'], [(x['n'], x['ok'], x['ids']) for x in row['obs']['per']][:6],
                 (row['obs']['whole']['ok'], row['obs']['whole']['ids'][:6]), row['obs']['further'], row['obs'].get('reopenErr', '')),
                 {'case': {'id': row['id'], 'hist': row['hist'], 'op': row['op'], 'maxn': len(row['obs']['per'])}, 'image': {k: row[k] for k in ('mode', 'point', 'cut', 'cutlen', 'file')}})
+    # system-call audit of syncs
+    arows = audit(ctx, cp)
+    for ch, m in validate(ctx, arows, kind='Audit'):
+        row = ch[int(m[1]) - 1]
+        ctx.report({'family': 'crash', 'clause': 'syncedOnReturn', 'op': row['op'], 'files': sorted(set(row['unsynced']))},
+                   'C17 (power loss): %s returned with data written to %s not synced afterwards (history %s, operation %d; written %s, synced %s)' % (
+                       row['op'], row['unsynced'], row['id'], row['i'], row['written'], row['synced']), {'audit': row})
     # SQL
     sp = os.path.join(ctx.scratch, 'sql.ndjson')
     p = ctx.run_vh(['sqlfail', '-out', sp, '-repo', common.REPO], timeout=600)
     if p.returncode != 0:
         raise common.Infra('vh sqlfail failed: ' + p.stderr[-1500:])
     srows = common.ndjson_read(sp)
-    for ch, m in validate(ctx, srows, sql=True):
+    for ch, m in validate(ctx, srows, kind='Sql'):
         row = ch[int(m[1]) - 1]
         ctx.report({'family': 'crash', 'store': 'sql', 'clause': 'atomic', 'fail': row['fail']}, 'SQL save-and-increment not atomic: %s' % json.dumps(row), {'sql': row})
     negative_control(ctx, rows)
@@ -153,11 +161,14 @@ def run(ctx):
         'rule': 'one case = one crash image (history, interrupted operation, crash point, crash mode, cut) reopened by the real store; SQL: one injected statement failure; distinct images counted',
         'histories': len(cases), 'images_process': sum(1 for r_ in rows if r_['mode'] == 'process'), 'images_power': sum(1 for r_ in rows if r_['mode'] == 'power'),
         'crash_points_seen': sorted(set(r_['point'] for r_ in rows)), 'sql_cases': len(srows),
+        'audited_operations': len(arows), 'audited_operations_writing': sum(1 for r_ in arows if r_['written']),
+        'audited_files': sorted(set(f for r_ in arows for f in r_['written'])),
         'samples': [{k: rows[3][k] for k in ('hist', 'op', 'mode', 'point', 'cut', 'file')}, {k: rows[-1][k] for k in ('hist', 'op', 'mode', 'point', 'cut', 'file')}],
         'exhaustive': False, 'traces_validated_against_impl': len(rows),
     })
     ctx.assumptions += ['a process crash keeps completed writes and cuts the in-flight write at a byte; power loss keeps synced data plus a prefix of each unsynced write',
                         'file removals and creations are treated as immediately durable (directory syncs are not modelled)',
+                        'which data is synced inside an operation is taken from the crash-point names; that every file written by an operation has been synced after its last write when the operation returns is checked on the system calls of the real store (strace)',
                         'quick tier: the in-flight write is cut at class representatives (first byte, middle, all but one; every byte for counters and index lines)']
 
 
@@ -184,12 +195,78 @@ def signature(row, clause):
             'sender_counter_moved': bool(row['obs']['reopen']) and row['obs']['ns'] != ns_after(row['hist'])}
 
 
-def validate(ctx, rows, sql=False):
+_call = re.compile(r'^(\d+)\s+(write|pwrite64|fsync|fdatasync)\((\d+)<([^>]*)>(.*)$')
+_resumed = re.compile(r'^(\d+)\s+<\.\.\. (write|pwrite64|fsync|fdatasync) resumed>(.*)$')
+
+
+def audit(ctx, cases_path):
+    """run the histories under strace and list, per operation, the store files written and the files
+    synced after their last write"""
+    st = os.path.join(ctx.scratch, 'strace.txt')
+    import subprocess
+    p = subprocess.run(['strace', '-f', '-y', '-s', '64', '-e', 'trace=write,pwrite64,fsync,fdatasync', '-o', st,
+                        ctx.vh, 'crash', '-audit', '-cases', cases_path, '-out', os.path.join(ctx.scratch, 'audit_unused.ndjson')],
+                       capture_output=True, text=True, timeout=3000)
+    if p.returncode != 0:
+        raise common.Infra('strace / vh crash -audit failed (%d): %s' % (p.returncode, p.stderr[-800:]))
+    rows = []
+    cur = None
+    pending = {}
+    with open(st, errors='replace') as f:
+        for line in f:
+            m = _call.match(line)
+            if m:
+                pid, call, fd, path, rest = m.groups()
+                if 'unfinished' in rest:
+                    pending[(pid, call)] = path
+                    continue
+                if not rest.rstrip().endswith(tuple('0123456789')) or ' = -1' in rest:
+                    continue
+            else:
+                m2 = _resumed.match(line)
+                if not m2:
+                    continue
+                pid, call, rest = m2.groups()
+                path = pending.pop((pid, call), None)
+                if path is None or ' = -1' in rest:
+                    continue
+            if call in ('write', 'pwrite64') and 'VMARK ' in line:
+                parts = line.split('"')[1].replace('\\n', '').split()
+                if parts[1] == 'B':
+                    cur = {'id': parts[2], 'i': int(parts[3]), 'op': parts[4], 'events': []}
+                elif cur is not None:
+                    last_write = {}
+                    synced_after = set()
+                    for k, (c, suf) in enumerate(cur['events']):
+                        if c == 'w':
+                            last_write[suf] = k
+                            synced_after.discard(suf)
+                        else:
+                            synced_after.add(suf)
+                    written = sorted(last_write)
+                    rows.append({'id': cur['id'], 'i': cur['i'], 'op': cur['op'], 'written': written, 'synced': sorted(synced_after),
+                                 'unsynced': [s_ for s_ in written if s_ not in synced_after]})
+                    cur = None
+                continue
+            if cur is None or '/live/' not in path:
+                continue
+            suf = path.rsplit('.', 1)[-1]
+            cur['events'].append(('w' if call in ('write', 'pwrite64') else 's', suf))
+    if not rows or not any(r_['written'] for r_ in rows):
+        raise common.Infra('system-call audit saw no store writes (strace output not understood)')
+    return rows
+
+
+def validate(ctx, rows, kind=None):
+    sql = kind == 'Sql'
     content = '\n'.join(json.dumps(r, separators=(',', ':')) for r in rows) + '\n'
     mod = '---- MODULE CrashTraceX ----\nEXTENDS CrashTrace\nSqlStep == /\\ l <= Len(Trace) /\\ l\' = l + 1 /\\ UNCHANGED <<store, last>>\n' \
           '           /\\ LET bad == SqlFails(Trace[l]) IN IF bad = {} THEN TRUE ELSE PrintT(<<"MISMATCH", l, bad>>)\n' \
-          'SqlSpec == TraceInit /\\ [][SqlStep]_<<l, store, last>>\n====\n'
-    cfg = 'SPECIFICATION %s\nCONSTANTS\n SIDs = {"s1"}\n MaxCtr = 1000\n MaxKeyN = 1000\n Bodies = {"m1"}\n MaxCt = 100\nPOSTCONDITION AllConsumed\nCHECK_DEADLOCK FALSE\n' % ('SqlSpec' if sql else 'TraceSpec')
+          'SqlSpec == TraceInit /\\ [][SqlStep]_<<l, store, last>>\n' \
+          'AuditStep == /\\ l <= Len(Trace) /\\ l\' = l + 1 /\\ UNCHANGED <<store, last>>\n' \
+          '           /\\ LET bad == AuditFails(Trace[l]) IN IF bad = {} THEN TRUE ELSE PrintT(<<"MISMATCH", l, bad>>)\n' \
+          'AuditSpec == TraceInit /\\ [][AuditStep]_<<l, store, last>>\n====\n'
+    cfg = 'SPECIFICATION %s\nCONSTANTS\n SIDs = {"s1"}\n MaxCtr = 1000\n MaxKeyN = 1000\n Bodies = {"m1"}\n MaxCt = 100\nPOSTCONDITION AllConsumed\nCHECK_DEADLOCK FALSE\n' % ((kind + 'Spec') if kind else 'TraceSpec')
     r = ctx.tlc('CrashTraceX.tla', 'tr.cfg', workers=1, timeout=3000, files={'trace.ndjson': content, 'tr.cfg': cfg, 'CrashTraceX.tla': mod})
     if r['rc'] != 0 or 'Model checking completed. No error has been found.' not in r['out']:
         raise common.Infra('CrashTrace did not run to completion:\n' + r['out'][-2500:])
